@@ -7,6 +7,7 @@ import KitProofs.Lemmas.CryptoGlueNF
 import KitProofs.Lemmas.CryptoGlueKWSpec
 import KitProofs.Lemmas.CryptoLaws
 import KitProofs.Lemmas.CryptoGlueRsa
+import KitProofs.Lemmas.CryptoGlueMore
 namespace Kit.CryptoGlue
 open Kit Kit.CryptoGlue.Facts
 
@@ -900,5 +901,93 @@ example : ∃ sig, signPrivateKey rsaTextbook "RS256" .rsaPriv toyRsaKey [1, 2, 
   obtain ⟨sig, hsig⟩ := hs
   exact ⟨sig, hsig, sig_verify_sign rsaTextbook rsa_verify_sign "RS256" .rsaPriv toyRsaKey [1, 2, 3] [] sig
     (by decide) hsig⟩
+
+/-! ## 9. more structure -/
+
+/-- RFC 7518 §5.2.2.1: the MAC input `AD ‖ IV ‖ C ‖ AL` is an injective encoding of `(AD, IV, C)`
+(for IVs of one length and `AD` shorter than 2^61 bytes) — the 64-bit bit length `AL` is what rules
+out moving bytes between the associated data and the IV/ciphertext. -/
+theorem mac_input_injective (ad iv ct ad' iv' ct' : Bytes) (hiv : iv.length = iv'.length)
+    (hal : ad.length < 2305843009213693952) (hal' : ad'.length < 2305843009213693952)
+    (h : macInput ad iv ct = macInput ad' iv' ct') : ad = ad' ∧ iv = iv' ∧ ct = ct' :=
+  macInput_inj ad iv ct ad' iv' ct' hiv hal hal' h
+
+example : macInput [1] [2] [] ≠ macInput [] [1] [2] := by decide
+
+/-- For EVERY algorithm name and EVERY key kind (also EC keys of arbitrary size): whenever the
+sign-side dispatch accepts the key, the verify-side dispatch accepts its public half.  With it
+`sig_verify_sign` needs no dispatch hypothesis. -/
+theorem sig_dispatch_consistent_all (alg : String) (kind : KeyKind)
+    (h : asymOutcome "SignPrivateKey" alg kind = .ok ()) :
+    asymOutcome "VerifyPublicKey" alg kind = .ok () := by
+  by_cases hm : alg ∈ Generated.C03.supportedSignature
+  · have hp := sigPairOK_all alg hm
+    unfold sigPairOK at hp
+    cases hS : asymPlan Generated.C03.sw_SignPrivateKey alg with
+    | ok a =>
+      cases hV : asymPlan Generated.C03.sw_VerifyPublicKey alg with
+      | ok b =>
+        rw [hS, hV] at hp
+        simp only at hp
+        have hgS : asymGuard a kind = none := by
+          simp only [asymOutcome, String.reduceEq, or_false, if_false, if_true, hS] at h
+          cases hg : asymGuard a kind with
+          | none => rfl
+          | some e => simp [hg] at h
+        have hgV := asymGuard_pair a b hp kind hgS
+        simp only [asymOutcome, String.reduceEq, or_true, if_false, if_true, hV, hgV]
+      | err e => rw [hS, hV] at hp; cases hp
+      | panic w => rw [hS, hV] at hp; cases hp
+    | err e => rw [hS] at hp; cases hp
+    | panic w => rw [hS] at hp; cases hp
+  · exfalso
+    have hsub : ∀ c ∈ Generated.C03.sw_SignPrivateKey.cases, ∀ x ∈ c.1, x ∈ Generated.C03.supportedSignature := by
+      decide
+    have hnone : lookupSwitch Generated.C03.sw_SignPrivateKey alg = none := by
+      unfold lookupSwitch
+      rw [Option.map_eq_none_iff, List.find?_eq_none]
+      intro c hc hcon
+      exact hm (hsub c hc alg (by simpa using hcon))
+    simp [asymOutcome, asymPlan, hnone] at h
+
+/-- `sig_verify_sign` without the dispatch hypothesis. -/
+theorem sig_verify_sign_all {SK PK : Type} (S : SigScheme SK PK) (hS : S.Lawful) (alg : String)
+    (kind : KeyKind) (sk : SK) (digest rand sig : Bytes)
+    (hsign : signPrivateKey S alg kind sk digest rand = .ok sig) :
+    verifyPublicKey S alg kind (S.pub sk) digest sig = .ok true := by
+  have hdisp : asymOutcome "SignPrivateKey" alg kind = .ok () := by
+    unfold signPrivateKey at hsign
+    cases ho : asymOutcome "SignPrivateKey" alg kind with
+    | ok u => cases u; rfl
+    | err e => rw [ho] at hsign; cases hsign
+    | panic w => rw [ho] at hsign; cases hsign
+  exact sig_verify_sign S hS alg kind sk digest rand sig (sig_dispatch_consistent_all alg kind hdisp) hsign
+
+/-- The generic entry points: for every listed symmetric name `Encrypt`/`Decrypt` ARE
+`EncryptSymmetric`/`DecryptSymmetric` (this is what failed for the NOPAD names on the unchanged
+tree), so the round trip and every sentinel theorem above holds for them as well. -/
+theorem encrypt_decrypt_are_symmetric (P : Prims) (alg : String) (h : alg ∈ Generated.C03.supportedSymmetric)
+    (key : Key) (pt ct nonce tag ad : Bytes) :
+    encrypt P pt alg key nonce ad = encryptSymmetric P pt alg key nonce ad ∧
+    decrypt P ct alg key nonce tag ad = decryptSymmetric P ct alg key nonce tag ad := by
+  obtain ⟨d, hd, hf⟩ := dispatch_total.1 alg h
+  obtain ⟨_, _, hE, hD⟩ := symFacts_common hf
+  unfold encrypt decrypt
+  rw [hE, hD]
+  exact ⟨rfl, rfl⟩
+
+/-- Round trip through the generic `Encrypt` / `Decrypt`. -/
+theorem encrypt_decrypt_roundtrip (P : Prims) (hS : P.Std) (hL : P.LawfulPrims) (alg : String) (d : Denotes)
+    (h : alg ∈ Generated.C03.supportedSymmetric) (hd : denotes alg = some d)
+    (key pt nonce ad : Bytes) (hk : key.length = d.keyLen)
+    (hn : d.family ≠ .kw → nonce.length = d.nonceLen)
+    (hnp : d.nopad = true → pt.length % 16 = 0)
+    (hkw : d.family = .kw → pt.length % 8 = 0 ∧ 16 ≤ pt.length) :
+    ∃ ct tag, encrypt P pt alg ⟨.oct, key⟩ nonce ad = .ok (ct, tag) ∧ tag.length = d.tagLen ∧
+      decrypt P ct alg ⟨.oct, key⟩ nonce tag ad = .ok pt := by
+  obtain ⟨ct, tag, h1, h2, h3⟩ := sym_roundtrip P hS hL alg d h hd key pt nonce ad hk hn hnp hkw
+  refine ⟨ct, tag, ?_, h2, ?_⟩
+  · rw [(encrypt_decrypt_are_symmetric P alg h ⟨.oct, key⟩ pt ct nonce tag ad).1]; exact h1
+  · rw [(encrypt_decrypt_are_symmetric P alg h ⟨.oct, key⟩ pt ct nonce tag ad).2]; exact h3
 
 end Kit.CryptoGlue
